@@ -56,7 +56,7 @@ pub fn run_c14(cx: &Ctx) -> i32 {
     let texts = space::texts(&alphabet, max_len);
     let tallies = par::run_workers(16, |w, claimer| {
         engine::quiet_panics();
-        engine::set_sweep_horizons(300_000, 20_000);
+        engine::set_sweep_horizons(40_000, 5_000);
         let mut t = Tally::new();
         // part 2 (once): size limits apply to each delegated piece of a fancy pattern
         if w == 0 {
